@@ -184,6 +184,13 @@ class Ctx:
         self.corrdir = os.path.join(COQ, "Corr", pid)
         os.makedirs(self.corrdir, exist_ok=True)
         self.known = [k for k in load_known() if k["property"] == pid]
+        self.props_built = []
+        if not replay:               # replays of an earlier run must not survive into this run's verdict
+            d = os.path.join(ROOT, "replays", pid)
+            if os.path.isdir(d):
+                for f in os.listdir(d):
+                    if f.startswith(("witness_", "broken_")):
+                        os.remove(os.path.join(d, f))
 
     @property
     def quick(self):
@@ -203,6 +210,8 @@ class Ctx:
         except FileNotFoundError:
             pass
         ok, log = coq_make(["Base/Cmp.vo"] + list(extra_targets) + [vo], timeout=timeout)
+        if ok:
+            self.props_built.append(props_rel)
         open(os.path.join(self.workdir, "build.log"), "w").write(log)
         fails = locate_failures(log) if not ok else []
         if ok:
@@ -290,7 +299,34 @@ class Ctx:
         return True
 
     # ---- reporting -----------------------------------------------------------
+    def run_coqchk(self):
+        """thorough tier: re-check the compiled property files (and everything they depend on) with the independent
+        checker coqchk and record its context summary (axioms, type-in-type, unsafe fixpoints, assumed positivity)."""
+        res = []
+        for rel in self.props_built:
+            mod = LOGICAL + "." + rel[:-2].replace("/", ".")
+            rc, out = sh("timeout 3000 coqchk -silent -o -Q . %s %s 2>&1" % (LOGICAL, mod), cwd=COQ, timeout=3100)
+            summ = out[out.find("CONTEXT SUMMARY"):] if "CONTEXT SUMMARY" in out else out[-600:]
+            bad = []
+            for key in ("type-in-type", "unsafe (co)fixpoints", "positivity is assumed"):
+                m = re.search(re.escape(key) + r":\s*(.*)", summ)
+                if m and "<none>" not in m.group(1):
+                    bad.append(key)
+            axioms = []
+            m = re.search(r"\* Axioms:(.*?)\n\s*\n\* Constants", summ, re.S)
+            if m and "<none>" not in m.group(1):
+                axioms = [a.strip() for a in m.group(1).split("\n") if a.strip()]
+            res.append({"module": mod, "rc": rc, "axioms": axioms, "flags": bad})
+            if rc != 0 or bad:
+                self.broken.append({"kind": "proof", "what": "coqchk rejected %s" % mod, "detail": summ[-600:]})
+        self.extra["coqchk"] = res
+
     def finish(self, level_text="", checker_cmd=None, rule="", exhaustive=None):
+        if self.tier == "thorough" and os.environ.get("VERIF_COQCHK", "1") == "1":
+            try:
+                self.run_coqchk()
+            except Exception as ex:      # never let the extra checker turn into a verdict by crashing
+                self.notes.append("coqchk step failed to run: %r" % (ex,))
         wall = time.time() - self.t0
         n_ob = len(self.obligations)
         n_ok = sum(1 for o in self.obligations if o["ok"])
